@@ -9,7 +9,8 @@ Record oview := { ov_n : nat; ov_id : string; ov_present : bool; ov_addr : strin
                   ov_left : bool; ov_unreach : bool; ov_expiry : option Z; ov_ents : list entry }.
 Definition osum_item := (string * N * nat * bool * bool * bool)%type.
 Record obs := { o_views : list oview; o_sums : list (nat * list osum_item); o_events : list (nat * event);
-                o_sent : list (string * string); o_err : bool; o_reports : option (list string) }.
+                o_sent : list (string * string); o_err : bool; o_reports : option (list string);
+                o_net : bool (* compare emitted packets / error flag / oracle legality *) }.
 
 Section Perm.
   Context {A : Type} (eqb : A -> A -> bool).
@@ -85,12 +86,12 @@ Fixpoint sent_ok (ps : list packet) (os : list (string * string)) : bool :=
 (* codes: 1 illegal oracle, 2 view, 3 summary, 4 events, 5 packets, 6 error flag, 7 detector reports *)
 Definition check_step (so : step_out) (ob : obs) : list nat :=
   let w := so_world so in
-  (if so_oracle_ok so then [] else [1%nat])
+  (if so_oracle_ok so || negb (o_net ob) then [] else [1%nat])
   ++ (if forallb (view_ok w) (o_views ob) then [] else [2%nat])
   ++ (if forallb (sum_ok w) (o_sums ob) then [] else [3%nat])
   ++ (if perm_eqb nevent_eqb (so_events so) (o_events ob) then [] else [4%nat])
-  ++ (if sent_ok (so_sent so) (o_sent ob) then [] else [5%nat])
-  ++ (if Bool.eqb (so_err so) (o_err ob) then [] else [6%nat])
+  ++ (if sent_ok (so_sent so) (o_sent ob) || negb (o_net ob) then [] else [5%nat])
+  ++ (if Bool.eqb (so_err so) (o_err ob) || negb (o_net ob) then [] else [6%nat])
   ++ (match o_reports ob with
       | None => []
       | Some r => if list_eqb String.eqb (so_reports so) r then [] else [7%nat] end).
